@@ -52,6 +52,10 @@ CLAIMS = {
     text="LiquidCompare defines Liquid equality and ordering over the whole value universe with exact arithmetic (LiquidBig integers, doubles as rationals or inf/nan, code-point strings, date-times as instant + offset, objects as order-free functions); TLC checks reflexivity (NaN excepted), symmetry, </> duality, <=/>= consistency, equal-never-strictly-ordered, integer/float equality up to 2^53 and chronological order across offsets on every ordered pair of the pool; every pair is then evaluated on the real code through ValueViewCmp, ValueCow (owned, borrowed, mixed) and through if / case / contains / uniq templates, with each value built twice independently, in two passes of separate processes, and compared with the specification's answer.",
     note="bounded: 66-value pool, all ordered pairs (triples are not enumerated); one repaired defect (hash-order dependent object ordering).",
     tech=TECH_A, ref="DESIGN.md 7 C11"),
+ "C12": dict(
+    text="LiquidViews defines the observation table of a datum (type name, printed form, truthy / default / empty / blank, kind predicates, size, equality against a probe set) independently of the Rust type that carries it; TLC enumerates the generated values and struct instances, checks the table's own laws and emits each with its table; the harness materialises every datum through every view and conversion (owned, borrowed, Option, serde in both directions, JSON text, native collections, derived structs and their serde twins, also rendered in a template) and requires each to present exactly that table; integers across the i64 / u64 boundaries must arrive exactly, be rejected, or arrive as the nearest float.",
+    note="bounded: values to depth 2 (representative slice quick, full thorough), one struct family; one repaired defect (from_value turned '10' into 10) and one recorded finding (dates become strings through serde), matched by value kind and view.",
+    tech=TECH_A, ref="DESIGN.md 7 C12"),
  "C13": dict(
     text="LiquidFiltersStr defines every string filter as a recursive TLA+ function on sequences of Unicode scalar values (grapheme clusters for truncate) and chains as composition; TLC enumerates the bounded input space, evaluates the documented function for every case and checks the algebraic laws of the property (split/join identity, strip = lstrip o rstrip, truncate bound, slice contiguity, size in characters, capitalize touches only the first character, replace_first is a prefix of replace, default) as invariants; every case is replayed through {{ in | filter: args | __dump }} on the real parser and compared structurally.",
     note="bounded: strings <= 3 (quick) / 4 (thorough) over a 10-character adversarial alphabet, arguments <= 1 / 2; two recorded findings (truncate measures in bytes) are matched by filter name and non-ASCII input shape; two repaired defects (size, slice).",
